@@ -13,6 +13,14 @@
      <id> UN <inst> <cid0w> ; UE <inst> <cid> <text> <w> <code|ovf> ; UG <inst> <cid> <text> ; UI <inst> ; UC <inst> <string>
    composite, identity (CidEnc.v, Section Fixed with id_all/id_rev)
      <id> FN <inst> <cid0w> ; FE <inst> <cid> <text> <w> ; FG <inst> <cid> <text> ; FC <inst> <string>
+   composite, NewFromCMap with an arbitrary CMap (CidEnc.v, Section Fixed with tbl_all/tbl_rev)
+     <id> GT <tbl> <n> code1 cid1 ...   the pairs of cmap.All, in order ; GN <inst> <tbl> <cid0w> ;
+     GE <inst> <cid> <text> <w> ; GG <inst> <cid> <text> ; GC <inst> code1 code2 ...
+   /Encoding (Encoding.v)
+     <id> EB <win|mac|expert|std> n0 ... n255      a base table
+     <id> EW <bis> <k> c1 name1 v1 ...             AsPDFSimple of the encoding {c -> name}, v = names.IsValid(name); then ExtractSimple
+     <id> ER <nse> <obj> <k> c1..ck                ExtractSimple of obj = nil | named <b> | dict <b|-> <m> item... (item = I<int> | N<hex>:<v>)
+     <id> E3W <k> c1 name1 ... ; E3R <m> item... <k> c1..ck     the same for Type 3
    width tables (Widths.v)
      <id> WD <items...>          decode a /W array: R c0 c1 w | L c0 n w1..wn
      <id> WE <n> c1 w1 ...       encode, then decode
@@ -21,6 +29,9 @@
 open Wire
 
 let simple : (string, SimpleEnc.st) Hashtbl.t = Hashtbl.create 64
+let tables : (string, (BinNums.coq_N list * BinNums.coq_N) list) Hashtbl.t = Hashtbl.create 16
+let fromcmap : (string, (string * CidEnc.fst_)) Hashtbl.t = Hashtbl.create 64
+let base_tables : (string, BinNums.coq_N list array) Hashtbl.t = Hashtbl.create 4
 let utf8 : (string, CidEnc.ust) Hashtbl.t = Hashtbl.create 64
 let fixed : (string, CidEnc.fst_) Hashtbl.t = Hashtbl.create 64
 
@@ -65,6 +76,37 @@ let rec pairs f = function
   | a :: b :: r -> f a b :: pairs f r
   | [] -> []
   | _ -> failwith "odd pair list"
+
+let base which (c : BinNums.coq_N) =
+  match Hashtbl.find_opt base_tables which with
+  | Some a -> let i = int_of_n c in if i < 256 then a.(i) else []
+  | None -> []
+
+let basename_of = function "win" -> Encoding.BWin | "mac" -> Encoding.BMac | _ -> Encoding.BExpert
+let basename_str = function Encoding.BWin -> "win" | BMac -> "mac" | BExpert -> "expert"
+
+let show_ditems (valid : BinNums.coq_N list -> bool) its =
+  Stdlib.String.concat " " (Stdlib.List.map (function
+    | Encoding.DCode c -> "I" ^ sz c
+    | Encoding.DName n -> "N" ^ hex n ^ ":" ^ string_of_bool (valid n)) its)
+
+let show_encobj valid = function
+  | Encoding.ONil -> "nil"
+  | ONamed b -> "named " ^ basename_str b
+  | ODict (b, its) -> Printf.sprintf "dict %s %d %s" (match b with Some b -> basename_str b | None -> "-")
+                        (Stdlib.List.length its) (show_ditems valid its)
+  | OError -> "error"
+
+(* items: I<int> | N<hex>:<valid>; returns the items and the validity of the names they mention *)
+let parse_ditems toks (vt : (string, bool) Hashtbl.t) =
+  Stdlib.List.map (fun t ->
+    if t.[0] = 'I' then Encoding.DCode (z_of_string (Stdlib.String.sub t 1 (Stdlib.String.length t - 1)))
+    else begin
+      let body = Stdlib.String.sub t 1 (Stdlib.String.length t - 1) in
+      match Stdlib.String.split_on_char ':' body with
+      | [h; v] -> Hashtbl.replace vt h (v = "1"); Encoding.DName (bytes_of_hex h)
+      | _ -> failwith "bad item"
+    end) toks
 
 let uinfo_str (i : CidEnc.uinfo) = Printf.sprintf "%s:%s:%s" (sn i.ui_cid) (sz i.ui_w) (hex i.ui_text)
 
@@ -155,6 +197,76 @@ let () =
         | None -> "outside"
         | Some l -> Printf.sprintf "%d %s" (Stdlib.List.length l)
                       (join (Stdlib.List.map (fun code -> uinfo_str (CidEnc.fget CidEnc.id_rev s code)) l)))
+    | id :: "GT" :: tbl :: _n :: rest ->
+      Hashtbl.replace tables tbl (pairs (fun code c -> (bytes_of_hex code, n_of_string c)) rest);
+      Printf.printf "%s table\n" id
+    | id :: "GN" :: inst :: tbl :: [w] ->
+      Hashtbl.replace fromcmap inst (tbl, CidEnc.finit (z_of_string w)); Printf.printf "%s new\n" id
+    | id :: "GE" :: inst :: c :: t :: [w] ->
+      let (tbl, s) = Hashtbl.find fromcmap inst in
+      let l = Hashtbl.find tables tbl in
+      let (s', r) = CidEnc.fencode (CidEnc.tbl_all l) s (n_of_string c) (bytes_of_hex t) (z_of_string w) in
+      Hashtbl.replace fromcmap inst (tbl, s');
+      Printf.printf "%s %s\n" id (match r with CidEnc.FOk code -> "ok " ^ hex code | _ -> "err")
+    | id :: "GG" :: inst :: c :: [t] ->
+      let (tbl, s) = Hashtbl.find fromcmap inst in
+      let l = Hashtbl.find tables tbl in
+      Printf.printf "%s %s\n" id (match CidEnc.fget_code (CidEnc.tbl_all l) s (n_of_string c) (bytes_of_hex t) with
+        | Some [] -> "zero" | Some code -> hex code | None -> "none")
+    | id :: "GC" :: inst :: codes ->
+      let (tbl, s) = Hashtbl.find fromcmap inst in
+      let l = Hashtbl.find tables tbl in
+      Printf.printf "%s %d %s\n" id (Stdlib.List.length codes)
+        (join (Stdlib.List.map (fun code -> uinfo_str (CidEnc.fget (CidEnc.tbl_rev l) s (bytes_of_hex code))) codes))
+    | id :: "EB" :: which :: names ->
+      Hashtbl.replace base_tables which (Array.of_list (Stdlib.List.map bytes_of_hex names));
+      Printf.printf "%s table\n" id
+    | id :: "EW" :: bis :: _k :: rest ->
+      let tbl = Hashtbl.create 64 and vt = Hashtbl.create 64 in
+      let rec go = function
+        | c :: n :: v :: r -> Hashtbl.replace tbl (int_of_string c) (bytes_of_hex n); Hashtbl.replace vt n (v = "1"); go r
+        | [] -> () | _ -> failwith "bad EW" in
+      go rest;
+      let e c = match Hashtbl.find_opt tbl (int_of_n c) with Some n -> n | None -> [] in
+      let valid n = match Hashtbl.find_opt vt (hex n) with Some v -> v | None -> false in
+      let bis = bis = "1" in
+      let o = Encoding.as_pdf_simple (base "win") (base "mac") (base "expert") (base "std") e bis in
+      let cs = Stdlib.List.sort compare (Hashtbl.fold (fun c _ acc -> c :: acc) tbl []) in
+      (match o with
+       | Encoding.OError -> Printf.printf "%s error\n" id
+       | _ ->
+         let f = Encoding.extract_simple (base "win") (base "mac") (base "expert") (base "std") valid o bis in
+         Printf.printf "%s %s\n" id (match cs with [] -> "-" | _ ->
+           join (Stdlib.List.map (fun c -> Printf.sprintf "%d:%s" c (hex (f (n_of_int c)))) cs)));
+      Printf.printf "%s.soft %s\n" id (show_encobj valid o)
+    | id :: "ER" :: nse :: kind :: rest ->
+      let vt = Hashtbl.create 64 in
+      let (o, rest) = match kind, rest with
+        | "nil", r -> (Encoding.ONil, r)
+        | "named", b :: r -> (Encoding.ONamed (basename_of b), r)
+        | "dict", b :: m :: r ->
+          let (its, r') = take (int_of_string m) r in
+          (Encoding.ODict ((if b = "-" then None else Some (basename_of b)), parse_ditems its vt), r')
+        | _ -> failwith "bad ER" in
+      let valid n = match Hashtbl.find_opt vt (hex n) with Some v -> v | None -> false in
+      let cs = match rest with _k :: cs -> cs | [] -> [] in
+      let f = Encoding.extract_simple (base "win") (base "mac") (base "expert") (base "std") valid o (nse = "1") in
+      Printf.printf "%s %s\n" id (match cs with [] -> "-" | _ -> join (Stdlib.List.map (fun c -> c ^ ":" ^ hex (f (n_of_string c))) cs))
+    | id :: "E3W" :: _k :: rest ->
+      let tbl = Hashtbl.create 64 in
+      ignore (pairs (fun c n -> Hashtbl.replace tbl (int_of_string c) (bytes_of_hex n)) rest);
+      let e c = match Hashtbl.find_opt tbl (int_of_n c) with Some n -> n | None -> [] in
+      let its = Encoding.as_pdf_type3 e in
+      Printf.printf "%s %s\n" id (match Encoding.extract_type3 its with
+        | None -> "missing"
+        | Some f -> join (Stdlib.List.map (fun c -> Printf.sprintf "%d:%s" c (hex (f (n_of_int c)))) (Stdlib.List.init 256 (fun i -> i))));
+      Printf.printf "%s.soft %d %s\n" id (Stdlib.List.length its) (show_ditems (fun _ -> true) its)
+    | id :: "E3R" :: m :: rest ->
+      let vt = Hashtbl.create 64 in
+      let (its, _) = take (int_of_string m) rest in
+      Printf.printf "%s %s\n" id (match Encoding.extract_type3 (parse_ditems its vt) with
+        | None -> "missing"
+        | Some f -> join (Stdlib.List.map (fun c -> Printf.sprintf "%d:%s" c (hex (f (n_of_int c)))) (Stdlib.List.init 256 (fun i -> i))))
     | id :: "WD" :: rest ->
       let its = parse_items rest in
       Printf.printf "%s %s\n" id (match Widths.decode_w its with None -> "err" | Some l -> show_assign l)
